@@ -168,7 +168,7 @@ def r20_5(ctx):
     from .common import pm_of
     ds = p.func("pop3_client.dot_stuff")
     pds = pm_of(p, ds)
-    if pds.has("lines = data.split(b'\\r\\n')") and pds.has("for line in lines:\n    if line.startswith(b'.'):\n        result.append(b'.' + line)\n    else:\n        result.append(line)") and pds.has("return b'\\r\\n'.join(result)"):
+    if pds.has("lines = data.split(b'\\r\\n')\nresult = []\nfor line in lines:\n    if line.startswith(b'.'):\n        result.append(b'.' + line)\n    else:\n        result.append(line)\nreturn b'\\r\\n'.join(result)"):
         ctx.ok("R20.5", where(ds), "dot_stuff: every CRLF-separated line starting with '.' gets one more '.'")
     else:
         ctx.bad("R20.5", ds.module, ds.qual, "dot_stuff body", "dot_stuff no longer doubles the leading dot of each CRLF-separated line", ds.node.lineno)
@@ -222,7 +222,7 @@ def r20_5(ctx):
     # STAT/LIST sizes through _get_msg_size -> get_msg_size
     gs = p.func("pop3_client.POP3CommandHandler._get_msg_size")
     pgs = pm_of(p, gs)
-    if pgs.has("self.msg_sizes[pop3_num] = get_msg_size(msg)") and pgs.has("return self.msg_sizes[pop3_num]"):
+    if pgs.has("msg = self.mbox.get_msg_by_uid(...)\nself.msg_sizes[pop3_num] = get_msg_size(msg)") and pgs.has("return self.msg_sizes[pop3_num]"):
         ctx.ok("R20.5", where(gs), "STAT/LIST sizes = get_msg_size(msg) (same renderer as RETR)")
     else:
         ctx.bad("R20.5", gs.module, gs.qual, "get_msg_size(msg)", "STAT/LIST sizes no longer come from the shared renderer", gs.node.lineno)
